@@ -122,10 +122,39 @@ def run_mac_stream(seed, n_worlds, kmax):
 MAC_PARTS = {"C15": {"world"}, "C05": {"query"}, "C16": {"wpreds", "qpreds", "world", "query"}}
 
 
+def run_e2e(seed, n_cases):
+    """End-to-end programs compiled and run by the real toolchain (tools/e2e.py); cached per tree."""
+    import e2e
+    jf = os.path.join(tdir(), f"e2e-{seed}-{n_cases}.json")
+    with Lock("e2e"):
+        if os.path.exists(jf):
+            return json.load(open(jf))
+        progs = e2e.gen_programs(seed, n_cases)
+        try:
+            r = e2e.run_programs(progs, os.path.join(CACHE, "e2e-crate"), os.path.join(CACHE, "target-e2e"), ENV)
+        except Exception as ex:  # noqa
+            r = {"results": [], "hits": [], "unexpected": [], "crashed": repr(ex), "wall_s": 0}
+        if not any(x.get("compiled") for x in r["results"]) and not r.get("crashed"):
+            r["crashed"] = "no end-to-end program compiled: " + r.get("stderr_tail", "")[-500:]
+        for h in r["hits"]:
+            src = os.path.join(CACHE, "e2e-crate", "src", "bin", h["program"] + ".rs")
+            h["source"] = open(src).read() if os.path.exists(src) else None
+            res = next((x for x in r["results"] if x["name"] == h["program"]), {})
+            h["case"] = res.get("case")
+            h["rho"] = res.get("rho")
+            h["output"] = res.get("output")
+        r["programs"] = len(progs)
+        json.dump(r, open(jf, "w"))
+        return r
+
+
 def check_mac(prop, tier, seed):
     t0 = time.time()
     lean = lean_obligations(prop)
     if tier == "thorough":
+        lc = engine.leancheck_all()
+        for f in lc["failed"]:
+            lean["broken"].append(f"leanchecker rejects {f['module']}")
         streams = [run_mac_stream(seed + i, 1500, 6) for i in range(4)]
     else:
         streams = [run_mac_stream(seed, 250, 4)]
@@ -141,7 +170,13 @@ def check_mac(prop, tier, seed):
                     known_lines.append(msg)
                 continue
             violation = violation or ("oracle", h)
+    e2 = run_e2e(seed, 120 if tier == "thorough" else 28)
+    e2_hit = next((h for h in e2["hits"] if h["property"] == prop), None)
     broken_tie = []
+    if e2.get("crashed"):
+        broken_tie.append({"kind": "e2e-crash", "detail": e2["crashed"]})
+    for u in e2.get("unexpected", [])[:3]:
+        broken_tie.append({"kind": "e2e-unexpected-verdict", "detail": f"program {u['name']} ({u['why']}) — compiled={u['compiled']} errors={u['errors'][:2]}", "case": u.get("case")})
     for s in streams:
         if s.get("crashed"):
             broken_tie.append({"kind": "crash", "detail": s["crashed"]})
@@ -154,7 +189,14 @@ def check_mac(prop, tier, seed):
     for l in known_lines:
         print(l)
     rc = 0
-    if violation:
+    if e2_hit and not violation:
+        path = write_replay(prop, "oracle-" + e2_hit["class"], {"property": prop, "kind": "e2e-program", "class": e2_hit["class"], "what": e2_hit["what"],
+                                                                "declaration": e2_hit.get("case"), "truth_assignment": e2_hit.get("rho"),
+                                                                "observed_output": e2_hit.get("output"), "program": e2_hit.get("source"),
+                                                                "how": "compile the program against /repo (cargo build) and run it"})
+        print(f"VIOLATION property={prop} replay={path}")
+        rc = 1
+    elif violation:
         kind, h = violation
         path = write_replay(prop, "oracle-" + h["class"], {"property": prop, "kind": "mac-oracle", "class": h["class"],
                                                             "what": h["what"], "case_lines": [h["case_line"], h["twin_line"]]})
@@ -187,7 +229,7 @@ def check_mac(prop, tier, seed):
             st[k] = max(st.get(k, 0), v) if k == "assignments_max_k" else st.get(k, 0) + v
     cov = {
         "obligations": lean["obligations"], "discharged": lean["discharged"], "checker_cmd": lean["checker_cmd"],
-        "trusted_base": TRUSTED_BASE + ["harness/mac: the real macros/src/{data,parse,generate} included by path; rustc's evaluation of the #[cfg] macro_rules chain is simulated (one boolean per predicate in chain order) — the end-to-end expansion by rustc is exercised by the test-suite worlds of harness/rt and harness/rustc"],
+        "trusted_base": TRUSTED_BASE + ["harness/mac: the real macros/src/{data,parse,generate} included by path; in harness/mac rustc's evaluation of the #[cfg] macro_rules chain is simulated (one boolean per predicate in chain order); the end-to-end expansion by rustc is exercised by tools/e2e.py (generated programs compiled and run) and by the worlds of harness/rt"],
         "theorems": lean.get("names", []), "axioms_per_theorem": lean["axioms"], "broken_obligations": lean["broken"],
         "evaluations": sum(s["cases"] for s in streams),
         "traces_validated_against_impl": sum(s["cases"] for s in streams),
@@ -198,13 +240,17 @@ def check_mac(prop, tier, seed):
         "model_vs_impl_disagreements": sum(len(s["diffs"]) for s in streams),
         "impl_vs_oracle_failures": sum(1 for s in streams for h in s["oracle_hits"] if h["property"] == prop and not is_known(h, "mac")),
         "known_findings_reported": known_lines,
+        "end_to_end_programs": {"compiled_and_run": sum(1 for x in e2["results"] if x["expect"] in ("run", "twin") and x.get("compiled")),
+                                "must_not_compile": sum(1 for x in e2["results"] if x["expect"] == "fail"),
+                                "oracle_failures": len(e2["hits"]), "unexpected_verdicts": len(e2.get("unexpected", [])), "wall_s": e2.get("wall_s"),
+                                "what": "generated declarations + queries compiled by rustc against /repo and run: emitted ARCHETYPE_ID/COMPONENT_ID constants, ecs_component_id!, handles' archetype_id(), archetypes visited by each query, decorated program vs erased twin"},
     }
     ev = {"property_id": prop, "tier": tier, "seed": seed, "level": "proof", "coverage": cov, "assumptions": cov["trusted_base"],
           "wall_s": round(time.time() - t0, 2), "violations": 1 if rc else 0}
     os.makedirs(EVID, exist_ok=True)
     json.dump(ev, open(os.path.join(EVID, prop + ".json"), "w"), indent=1)
     if rc == 0:
-        print(f"PASS property={prop} tier={tier} obligations={lean['discharged']}/{lean['obligations']} cases={cov['evaluations']}")
+        print(f"PASS property={prop} tier={tier} obligations={lean['discharged']}/{lean['obligations']} cases={cov['evaluations']} e2e_programs={e2.get('programs', 0)}")
     return rc
 
 
@@ -242,6 +288,10 @@ def check_c18(prop, tier, seed):
     t0 = time.time()
     lean = lean_obligations(prop)
     build = engine.lean_build()
+    if tier == "thorough":
+        lc = engine.leancheck_all()
+        for f in lc["failed"]:
+            lean["broken"].append(f"leanchecker rejects {f['module']}")
     pr = run_probes()
     # (a) end-to-end: the harness that declares worlds and ~50 query invocations is compiled under
     # #![forbid(unsafe_code)] in both quick configurations
@@ -400,6 +450,9 @@ def check_c19(prop, tier, seed):
         print(f"VIOLATION property={prop} replay={path}")
         engine.write_evidence(prop, tier, seed, lean, streams, 1, [], extra, t0)
         return 1
+    ex2 = engine.thorough_extras(prop, tier, seed, lean, streams)
+    if ex2:
+        extra.update(ex2)
     return engine.decide(prop, tier, seed, lean, streams, lambda line: True, extra_cov=extra, t0=t0)
 
 
